@@ -9,6 +9,8 @@
                                    which handle accessors test `occaIsUndefined`, the public constructors
                                    (`occaInt8` ... `occaULong`) and `newOccaIntType`, the OCCA_* constants
    src/c/*.cpp                     number of call sites of the *untyped* `newOccaType(const primitive&)`
+   src/c/json.cpp                  which entry points return owning / borrowed handles; the statements of
+                                   occaJsonObjectGet/Set, occaJsonArrayPush/Insert the model is written after (shape checks)
 
    Everything is extracted with anchored regular expressions from very regular code; whenever a
    piece no longer has the expected shape a TranslateError is raised (reported as a broken tie).
@@ -318,6 +320,29 @@ def gen():
             if explicit or (len(args) == 1 and re.search(r"(\.number\(\)|primitive\s*\([^()]*\))$", a0)):
                 sites += 1
 
+    # ---- which json entry points hand out owning handles (needsFree) and which hand out borrowed ones
+    jsrc = re.sub(r"//[^\n]*", "", open(os.path.join(REPO, "src/c/json.cpp")).read())
+    def fn_body(name):
+        return body_of(jsrc, r"\b%s\s*\([^)]*\)\s*\{" % name, "src/c/json.cpp: " + name)
+    def owning_flag(name, arg_re):
+        m = need(re.search(r"return\s+occa::c::newOccaType\(\s*" + arg_re + r"\s*,\s*(true|false)\s*\)\s*;", fn_body(name), re.S),
+                 "%s: return newOccaType(..., needsFree)" % name)
+        return m.group(1) == "true"
+    own = {
+        "createOwning": owning_flag("occaCreateJson", r"\*\(new\s+occa::json\(\)\)"),
+        "parseOwning": owning_flag("occaJsonParse", r"\*\(new\s+occa::json\(occa::json::parse\(c\)\)\)"),
+        "objectGetOwning": owning_flag("occaJsonObjectGet", r"j_\[key\]"),
+        "arrayGetOwning": owning_flag("occaJsonArrayGet", r"j_\[index\]"),
+    }
+    need(re.search(r"if\s*\(j_\.has\(key\)\)\s*\{\s*return\s+occa::c::newOccaType\(j_\[key\],\s*false\);\s*\}\s*return\s+defaultValue\s*;",
+                   fn_body("occaJsonObjectGet")), "occaJsonObjectGet: has(key) ? handle : defaultValue")
+    need(re.search(r"\(index\s*>=\s*0\)\s*&&\s*\(index\s*<\s*\(int\)\s*array\.size\(\)\)", fn_body("occaJsonArrayInsert")),
+         "occaJsonArrayInsert: bounds check 0 <= index < size")
+    need(re.search(r"array\.insert\(array\.begin\(\)\s*\+\s*index,\s*occa::c::inferJson\(value\)\)", fn_body("occaJsonArrayInsert")),
+         "occaJsonArrayInsert: insert at begin() + index")
+    need(re.search(r"j_\[key\]\s*=\s*occa::c::inferJson\(value\)\s*;", fn_body("occaJsonObjectSet")), "occaJsonObjectSet: j_[key] = inferJson(value)")
+    need(re.search(r"j_\s*\+=\s*occa::c::inferJson\(value\)\s*;", fn_body("occaJsonArrayPush")), "occaJsonArrayPush: j_ += inferJson(value)")
+
     tag_by_val = sorted((v, k) for k, v in T.items())
     lean_tag = lambda k: "tag" + k.rstrip("_")[0].upper() + k.rstrip("_")[1:]
     L = ["-- GENERATED by translate/gen_capi.py from include/occa/c/types.h, src/occa/internal/c/types.{hpp,cpp}, src/c/*.cpp; do not edit.",
@@ -376,6 +401,10 @@ def gen():
     L.append("")
     L.append("/-- `newOccaType(const json&, needsFree)` for a null json: the owned heap object is deleted before occaNull is returned -/")
     L.append("def nullJsonFreesOwned : Bool := %s" % ("true" if null_frees else "false"))
+    L.append("")
+    L.append("/-- src/c/json.cpp: needsFree of the handle returned by the entry point (true = the caller owns the json) -/")
+    for k in ("createOwning", "parseOwning", "objectGetOwning", "arrayGetOwning"):
+        L.append("def %s : Bool := %s" % (k, "true" if own[k] else "false"))
     L.append("")
     L.append("/-- call sites in src/c/*.cpp of the untyped `newOccaType(const primitive&)` (it has no bool case) -/")
     L.append("def untypedPrimCallSites : Nat := %d" % sites)
